@@ -35,8 +35,10 @@ func newGen(r *hlib.Rand, tier string) *gen {
 
 func (g *gen) next(i int) input {
 	switch i % 10 {
-	case 0, 1, 2, 3, 4:
+	case 0, 1, 2, 3:
 		return g.lexInput()
+	case 4:
+		return g.recvInput()
 	case 5, 6:
 		return g.dgramInput()
 	default:
@@ -66,7 +68,7 @@ func (g *gen) lexInput() input {
 	default:
 		line, class = lexgen.Mutate(r, g.gridLine(), true), "grid-mutated"
 	}
-	return input{Kind: "lex", Class: class, NS: hlib.Pick(r, namespaces), Data: lexgen.ToInts(line)}
+	return input{Kind: "lex", Class: class, NS: hlib.Pick(r, namespaces), Data: flat(line)}
 }
 
 // boundaryNums returns decimal numerals around every integer width the lexer computes in,
@@ -82,13 +84,13 @@ func boundaryNums(l int) []string {
 		out = append(out, strconv.FormatUint(v, 10))
 	}
 	out = append(out,
-		"18446744073709551616",                    // 2^64
-		"18446744073709551617",                    // 2^64+1
-		"18446744073709551620",                    // wraps to 4 without tripping a naive test?
-		"99999999999999999999",                    // 20 digits
-		"184467440737095516150",                   // 21 digits
-		"340282366920938463463374607431768211456", // 2^128
-		"36893488147419103232",                    // 2^65
+		"18446744073709551616",                      // 2^64
+		"18446744073709551617",                      // 2^64+1
+		"18446744073709551620",                      // wraps to 4 without tripping a naive test?
+		"99999999999999999999",                      // 20 digits
+		"184467440737095516150",                     // 21 digits
+		"340282366920938463463374607431768211456",   // 2^128
+		"36893488147419103232",                      // 2^65
 		"0000000000000000000000000"+strconv.Itoa(l), // > 20 digits, small value
 		"4294967296000000000",
 		"", "-1", "+1", "1e3", "0x10",
@@ -302,7 +304,7 @@ func (g *gen) dgramInput() input {
 	if len(dg) > g.maxLen {
 		dg = dg[:g.maxLen]
 	}
-	in := input{Kind: "dgram", Class: class, NS: hlib.Pick(r, namespaces), Data: lexgen.ToInts(dg), LogBad: r.Chance(1, 3)}
+	in := input{Kind: "dgram", Class: class, NS: hlib.Pick(r, namespaces), Data: flat(dg), LogBad: r.Chance(1, 3), IgnoreHost: r.Chance(1, 3)}
 	if r.Chance(1, 3) && len(dg) > 0 {
 		// the same bytes arriving as 2-4 datagrams (cut anywhere, also inside a line)
 		n := r.Range(1, 3)
@@ -313,6 +315,77 @@ func (g *gen) dgramInput() input {
 		sort.Ints(cuts)
 		in.Cuts, in.Batch = cuts, r.Bool()
 		in.Class += "-cut"
+	}
+	return in
+}
+
+// ---------------------------------------------------------------------------------------
+// recv stream: what arrives on the socket.  A case is a sequence of datagrams (zero-length and
+// maximum-size ones included) plus the receiver's configuration.
+
+func (g *gen) recvDatagram() string {
+	r := g.r
+	switch k := r.Intn(20); {
+	case k < 4:
+		return "" // a zero-length datagram is legal for UDP and unixgram
+	case k < 5:
+		return "\n"
+	case k < 6:
+		return fill(r, r.Range(1, 300), "")
+	case k < 7 && (g.tier == "thorough" || r.Chance(1, 8)):
+		// maximum UDP payload, many lines
+		var sb strings.Builder
+		for sb.Len() < 65507 {
+			sb.WriteString(g.dgramLine())
+			sb.WriteByte('\n')
+		}
+		return sb.String()[:65507]
+	case k < 8:
+		l, _ := g.longLine()
+		if len(l) > 65507 {
+			l = l[:65507]
+		}
+		return l
+	default:
+		n := r.Range(1, 6)
+		ls := make([]string, n)
+		for i := range ls {
+			ls[i] = g.dgramLine()
+		}
+		d := strings.Join(ls, "\n")
+		if r.Bool() {
+			d += "\n"
+		}
+		if len(d) > 65507 {
+			d = d[:65507]
+		}
+		return d
+	}
+}
+
+func (g *gen) recvInput() input {
+	r := g.r
+	n := []int{1, 1, 2, 3, 4, 6, 8, 12, 30, 60}[r.Intn(10)]
+	msgs := make([]string, n)
+	for i := range msgs {
+		msgs[i] = g.recvDatagram()
+		if n > 12 && len(msgs[i]) > 600 {
+			msgs[i] = msgs[i][:600]
+		}
+	}
+	in := input{Kind: "recv", Class: "recv", NS: hlib.Pick(r, namespaces), Data: lists(msgs),
+		LogBad: r.Chance(1, 4), IgnoreHost: r.Chance(1, 3),
+		Sock:    hlib.Pick(r, []string{"udp", "udp", "udp", "unixgram", "script", "script"}),
+		Readers: hlib.Pick(r, []int{1, 1, 2, 4}), RBatch: hlib.Pick(r, []int{1, 2, 5, 10, 50, r.Range(1, 50)}), Parsers: hlib.Pick(r, []int{1, 1, 2})}
+	if in.Sock == "udp" {
+		in.ConnPerReader = r.Chance(1, 3)
+	}
+	if in.Sock == "script" {
+		for i := 0; i < n; i++ {
+			if r.Chance(1, 5) {
+				in.Errs = append(in.Errs, i)
+			}
+		}
 	}
 	return in
 }
@@ -383,16 +456,16 @@ func eventMessage(r *hlib.Rand) []byte {
 // hand-encoded RawMessageV2 bodies whose map entries lack their value (or have an empty one):
 // legal protobuf, and the place where a handler that trusted the decoder could dereference nil
 var sparseBodies = [][]byte{
-	{0x0a, 0x03, 0x0a, 0x01, 'a'},                         // Counters entry, key only
-	{0x12, 0x03, 0x0a, 0x01, 'g'},                         // Gauges entry, key only
-	{0x1a, 0x03, 0x0a, 0x01, 's'},                         // Sets entry, key only
-	{0x22, 0x03, 0x0a, 0x01, 't'},                         // Timers entry, key only
-	{0x0a, 0x05, 0x0a, 0x01, 'a', 0x12, 0x00},             // Counters entry, empty CounterTagV2
+	{0x0a, 0x03, 0x0a, 0x01, 'a'},                                          // Counters entry, key only
+	{0x12, 0x03, 0x0a, 0x01, 'g'},                                          // Gauges entry, key only
+	{0x1a, 0x03, 0x0a, 0x01, 's'},                                          // Sets entry, key only
+	{0x22, 0x03, 0x0a, 0x01, 't'},                                          // Timers entry, key only
+	{0x0a, 0x05, 0x0a, 0x01, 'a', 0x12, 0x00},                              // Counters entry, empty CounterTagV2
 	{0x0a, 0x0a, 0x0a, 0x01, 'a', 0x12, 0x05, 0x0a, 0x03, 0x0a, 0x01, 'k'}, // TagMap entry, key only
 	{0x1a, 0x0a, 0x0a, 0x01, 's', 0x12, 0x05, 0x0a, 0x03, 0x0a, 0x01, 'k'}, // Sets TagMap entry, key only
-	{0x0a, 0x02, 0x12, 0x00},                              // entry with value only (empty key)
-	{0x0a, 0x00},                                          // empty entry
-	{},                                                    // empty message
+	{0x0a, 0x02, 0x12, 0x00},                                               // entry with value only (empty key)
+	{0x0a, 0x00},                                                           // empty entry
+	{},                                                                     // empty message
 }
 
 func compress(codec string, b []byte) []byte {
@@ -466,7 +539,7 @@ func (g *gen) httpInput() input {
 		mut = "trailing"
 		body = append(append([]byte(nil), body...), []byte(fill(r, r.Range(1, 10), ""))...)
 	}
-	in := input{Kind: "http", Ep: ep, Data: lexgen.ToInts(string(body))}
+	in := input{Kind: "http", Ep: ep, Data: flat(string(body))}
 	// the header: mostly the codec used, otherwise any of the encodings
 	hdr := codec
 	if r.Chance(1, 3) {
